@@ -171,6 +171,26 @@ Proof.
   destruct (canon_acc NO P calcP [] a1) as [m|e]; cbn [bind]; [|discriminate]. intros _. exists m. reflexivity.
 Qed.
 
+(* no look-ahead for the composite: the result over a longer stream extends the result over a prefix *)
+Theorem spec2_prefix_stable (a b : list cd) r : spec2 (a ++ b) = Ok r ->
+  exists mid tl, spec2 a = Ok mid /\ r = mid ++ tl.
+Proof.
+  unfold spec2, EngineProofs.canon. rewrite canon_acc_app.
+  destruct (canon_acc NO S calcS [] a) as [a1|e]; cbn [bind]; [|discriminate].
+  destruct (canon_acc NO S calcS a1 b) as [a2|e] eqn:E2; cbn [bind]; [|discriminate].
+  destruct (canon_acc_shape S calcS _ _ _ E2) as (tl1 & -> & _). rewrite canon_acc_app.
+  destruct (canon_acc NO P calcP [] a1) as [m|e]; cbn [bind]; [|discriminate]. intros H.
+  destruct (canon_acc_shape P calcP _ _ _ H) as (tl & -> & _). exists m, tl. split; reflexivity.
+Qed.
+Theorem composite_batch_is_causal (ds more : list cd) r :
+  Forall freshP (ds ++ more) -> Forall freshS (ds ++ more) -> calculate NO P (ds ++ more) = Ok r ->
+  exists mid tl, calculate NO P ds = Ok mid /\ r = mid ++ tl.
+Proof.
+  intros HfP HfS H. rewrite (batch_is_spec _ HfP HfS) in H.
+  destruct (spec2_prefix_stable ds more r H) as (mid & tl & Hm & Hr). exists mid, tl. split; [|exact Hr].
+  apply Forall_app in HfP. apply Forall_app in HfS. rewrite (batch_is_spec ds); tauto.
+Qed.
+
 (* any split of a stream into append chunks: whenever one calculate() over the whole stream
    succeeds, the chunked run ends in exactly its result.  (When the batch raises, the chunked run
    raises as well but possibly another exception: the batch lets the helper run over the
